@@ -207,6 +207,17 @@ func genWire(tier string) []proto.RTItem {
 			}
 			items = append(items, mk("udp", "", "2001:db8::77", addrs6[:4], http, rdns))
 			items = append(items, mk("icmp", "", "2001:db8::77", addrs6[2:6], http, rdns))
+			if !http && !rdns {
+				// a sibling request that did not ask for redaction overlaps this one on the same Traceroute value: this
+				// request's document is redacted all the same, on every schedule of the two
+				for _, pm := range [][2]string{{"udp", ""}, {"icmp", ""}} {
+					it := mk(pm[0], pm[1], "203.0.113.77", addrs4[4:8], false, false)
+					it.Scn.Overlap = true
+					it.Scn.Bound = 1
+					it.Class += "/overlapping-request-without-redaction"
+					items = append(items, it)
+				}
+			}
 			if !http {
 				// the caller's context ends while the runs are in flight (UDP and TCP runs do not look at it and still succeed)
 				for _, pm := range [][2]string{{"udp", ""}, {"tcp", "syn"}} {
